@@ -244,3 +244,33 @@ Proof.
     apply Nat.eqb_eq in X. apply Nat.eqb_eq in Y. subst. reflexivity. }
   apply P in E1. apply P in E2. subst. split; reflexivity.
 Qed.
+
+(* isolated X-point with all four legs ending on the wall (TORPEX): four y-regions, one separatrix location; BOUT++ reads it as two X-points on top of
+   each other (jyseps2_1 = jyseps1_1, jyseps1_2 = jyseps2_2, ixseps2 = ixseps1) with the second pair of targets at ny_inner *)
+Section XPT.
+  Variables n0 n1 n2 n3 a nx ny : Z.
+  Hypothesis H0 : 0 < n0.
+  Hypothesis H1 : 0 < n1.
+  Hypothesis H2 : 0 < n2.
+  Hypothesis H3 : 0 < n3.
+  Hypothesis Ha : 0 < a < nx.
+  Let ys := [n0; n1; n2; n3].
+  Let xs := [0; a; nx].
+  Let nyng := n0 + n1 + n2 + n3.
+
+  Lemma xpt_adjacency t x j dn sepidx :
+    topo_ints xs ys nx ny nyng dn sepidx = Some t -> 0 <= x < nx -> 0 <= j < nyng ->
+    model_up conn_xpt ys xs x j = bout_up t nyng x j.
+  Proof.
+    unfold ys, xs, nyng. intros Ht Hx Hj. cbv [conn_xpt] in *. topo_unfold. simpl in Ht. inversion Ht; subst t; clear Ht. topo_unfold.
+    assert (Cj : j < n0 - 1 \/ j = n0 - 1 \/ (n0 <= j < n0 + n1 - 1) \/ j = n0 + n1 - 1 \/ (n0 + n1 <= j < n0 + n1 + n2 - 1) \/ j = n0 + n1 + n2 - 1 \/
+                 (n0 + n1 + n2 <= j < n0 + n1 + n2 + n3 - 1) \/ j = n0 + n1 + n2 + n3 - 1) by lia.
+    assert (Cx : x < a \/ a <= x) by lia.
+    destruct Cx as [Cx|Cx]; destruct Cj as [Cj|[Cj|[Cj|[Cj|[Cj|[Cj|[Cj|Cj]]]]]]]; decide_ifs; try reflexivity; f_equal; lia.
+  Qed.
+
+  Lemma xpt_ordered t dn sepidx : topo_ints xs ys nx ny nyng dn sepidx = Some t -> ordered t nyng.
+  Proof.
+    unfold ys, xs, nyng. intro Ht. topo_unfold. simpl in Ht. inversion Ht; subst t; clear Ht. unfold ordered. topo_unfold. cbn. lia.
+  Qed.
+End XPT.
